@@ -14,8 +14,8 @@ RULE = ('histories of 4-16 operations on ONE parser object (SAXParser, SAX2XMLRe
         'history equals that of the same call on a freshly constructed parser with the same feature string and the same grammars preloaded; adopted documents '
         'dumped at the end equal their dump at adoption.  non-trivial = history contains a compared parse that follows a failed, abandoned or aborted parse on '
         'the same object; distinct by sha1(history).')
-# known finding C15-psvi-null-xsmodel (see known_findings.json): with PSVI on, re-parsing on the same parser (or parsing against a pool whose XSModel already
-# exists) calls getXSObject through a null / stale XSModel; psvi=1 is therefore not generated here (class excluded by construction in FEATS below)
+# known finding C15-psvi-null-xsmodel (see known_findings.json): with PSVI on, a re-used parser reports other type information than a fresh one (and parsing
+# against a pool whose XSModel already exists calls getXSObject through a stale XSModel); psvi=1 is therefore not generated here (class excluded in FEATS below)
 ASSUMPTIONS = ['persistent state is what the API documents: the feature/property map and the grammars cached through loadGrammar(toCache=true) since the last pool reset',
                'cacheGrammarFromParse is not generated in this round (its cached-wins rules are intricate); locked shared pools are covered by C17',
                'continue-after-fatal-error stays off']
@@ -135,7 +135,7 @@ import json, os
 def classify(case, detail):
     import re
     psvi = 'psvi=1' in case.get('feat', '') or any('psvi=1' in o for o in case.get('ops', []))
-    if psvi and re.search(r'getXSObject|SGXMLScanner\.cpp:2285|IGXMLScanner2\.cpp:6[0-9][0-9]', detail) and 'use-after-free' not in detail:
+    if psvi and re.search(r'getXSObject|IGXMLScanner2\.cpp:6[0-9][0-9]|result depends on the history', detail) and 'use-after-free' not in detail:
         return 'C15-psvi-null-xsmodel'
     return None
 
